@@ -974,53 +974,117 @@ func c04R4(c *Ctx, p *Prog) {
 
 func c04R5(c *Ctx, p *Prog) {
 	const R = "C04/R5"
-	unitF := p.Field("benchfmt", "Value", "Unit")
-	origUnitF := p.Field("benchfmt", "Value", "OrigUnit")
+	// The per-measurement decision of the .unit term, as a truth table: with Mu = the term matches the base unit,
+	// Mo = it matches the unit as written and G = a written unit is present (OrigUnit != ""), the measurement's bit
+	// is set exactly when Mu || (G && Mo). Read from the path conditions of one loop iteration (helpers evaluated in
+	// place), so the statement form does not matter.
 	n := 0
-	parsePkg := modPath + "/benchproc/internal/parse"
+	inl := func(f *ssa.Function) bool {
+		return f.Pkg != nil && f.Pkg.Pkg.Path() == bprocPkg && f.Name() != "set" && len(naturalLoops(f)) == 0 && len(f.Blocks) <= 12
+	}
+	classify := func(s *Sym) string {
+		str := s.String()
+		switch {
+		case s.Op == "call" && strings.Contains(s.Name, "FilterMatch).Match") && strings.Contains(str, ".OrigUnit"):
+			return "Mo"
+		case s.Op == "call" && strings.Contains(s.Name, "FilterMatch).Match") && strings.Contains(str, ".Unit"):
+			return "Mu"
+		case s.Op == "binop" && (s.Tok == token.EQL || s.Tok == token.NEQ) && strings.Contains(s.Args[0].String(), ".OrigUnit") && s.Args[1].isConst() && s.Args[1].String() == "\"\"":
+			if s.Tok == token.EQL {
+				return "!G"
+			}
+			return "G"
+		}
+		return ""
+	}
 	for _, fn := range p.Funcs("benchproc") {
-		var uCalls, oCalls []*ssa.Call
-		eachInstr(fn, func(_ *ssa.BasicBlock, in ssa.Instruction) {
-			call, ok := in.(*ssa.Call)
-			if !ok {
-				return
+		for _, lp := range naturalLoops(fn) {
+			start := loopBodyStart(lp)
+			if start == nil {
+				continue
 			}
-			co := calleeObj(&call.Call)
-			if co == nil || co.Pkg() == nil || co.Pkg().Path() != parsePkg {
-				return
+			mk := func() *e6Interp {
+				return &e6Interp{PureCall: func(f *types.Func) bool { return f.Name() != "set" }, Inline: inl, MaxAtoms: 16}
 			}
-			if rv := co.Type().(*types.Signature).Recv(); rv == nil || recvName(rv.Type()) != "FilterMatch" {
-				return
+			outs, why := e6Enumerate(mk, start, lp.Header, iterStop(lp, start), 512)
+			if why != "" {
+				continue
 			}
-			for _, a := range call.Call.Args[1:] {
-				if f, _ := loadOfField(a); f == unitF {
-					uCalls = append(uCalls, call)
-				} else if f == origUnitF {
-					oCalls = append(oCalls, call)
+			relevant := false
+			for _, o := range outs {
+				for k := range o.Assign {
+					if cl := classify(o.AtomSyms[k]); cl == "Mu" || cl == "Mo" {
+						relevant = true
+					}
 				}
 			}
-		})
-		if len(uCalls) == 0 && len(oCalls) == 0 {
-			continue
+			if !relevant {
+				continue
+			}
+			n++
+			site := p.pos(fn.Pos())
+			key := fnName(fn) + ":unit-match"
+			bad := ""
+			for _, o := range outs {
+				val := map[string]*bool{}
+				for k, v := range o.Assign {
+					vv := v
+					switch cl := classify(o.AtomSyms[k]); cl {
+					case "Mu", "Mo", "G":
+						val[cl] = &vv
+					case "!G":
+						nv := !v
+						val["G"] = &nv
+					case "":
+						// loop bookkeeping (index < len) is fine; anything about the measurement is not
+						if str := o.AtomSyms[k].String(); strings.Contains(str, ".Orig") || strings.Contains(str, ".Unit") || strings.Contains(str, ".Value") {
+							bad = "whether the unit as written is consulted depends on " + truncate(k, 100) + " rather than on OrigUnit being non-empty: a zero-valued measurement written in ns/op or MB/s is then not selected by .unit:ns/op (and wrongly kept by its negation)"
+						}
+					}
+				}
+				sets := false
+				for _, a := range o.Actions {
+					if a.Kind == "call" && a.Callee != nil && a.Callee.Name() == "set" {
+						sets = true
+					}
+				}
+				// three-valued evaluation of Mu || (G && Mo)
+				tv := func(x *bool) int {
+					if x == nil {
+						return -1
+					}
+					if *x {
+						return 1
+					}
+					return 0
+				}
+				and := func(a, b int) int {
+					if a == 0 || b == 0 {
+						return 0
+					}
+					if a == 1 && b == 1 {
+						return 1
+					}
+					return -1
+				}
+				or := func(a, b int) int {
+					if a == 1 || b == 1 {
+						return 1
+					}
+					if a == 0 && b == 0 {
+						return 0
+					}
+					return -1
+				}
+				spec := or(tv(val["Mu"]), and(tv(val["G"]), tv(val["Mo"])))
+				if bad == "" && (spec == -1 || (spec == 1) != sets) {
+					bad = fmt.Sprintf("on the path %s the measurement's bit is set=%v, but 'matches the base unit, or a written unit is present and matches' is %s there: the term must select a measurement by either of its two unit names", truncate(o.AssignStr(), 160), sets, map[int]string{-1: "not determined", 0: "false", 1: "true"}[spec])
+				}
+			}
+			c.Check(bad == "", R, key, site, "the bit is set exactly when the base unit matches or a present written unit matches", bad)
 		}
-		n++
-		key := fnName(fn) + ":unit-match"
-		site := p.pos(fn.Pos())
-		if len(uCalls) == 0 || len(oCalls) == 0 {
-			c.Bad(R, key, site, fmt.Sprintf("the .unit term is matched against only one of the two units (base unit calls: %d, written unit calls: %d)", len(uCalls), len(oCalls)))
-			continue
-		}
-		// OR-join: the true edges of both tests reach the same effect block; the false edge of the first reaches the second.
-		su := trueTarget(uCalls[0])
-		so := trueTarget(oCalls[0])
-		if su == nil || so == nil {
-			c.Undecided(R, key, site, "match results are not used directly as branch conditions")
-			continue
-		}
-		c.Check(su == so && hasCallOnMask(su), R, key, site, "either unit matching sets the measurement's bit",
-			"the two unit tests are not joined by OR into the same bit-setting block")
 	}
-	c.Floor(R, "unit-matching closures", n, 1)
+	c.Floor(R, "unit-matching loops", n, 1)
 }
 
 // trueTarget follows the true edge of the If testing call's result through jump-only blocks.
